@@ -157,7 +157,7 @@ fn relations(tier: Tier, ellipsoids: &[String]) -> Vec<Relation> {
                     inputs: shifted,
                     tol_abs: tol * 10.,
                     tol_rel: 1e-13,
-                    both_directions: false,
+                    both_directions: true,
                 });
             }
             // 3. k_0 scales the unshifted plane coordinates linearly
@@ -173,7 +173,7 @@ fn relations(tier: Tier, ellipsoids: &[String]) -> Vec<Relation> {
                         inputs: inputs.clone(),
                         tol_abs: tol * 10.,
                         tol_rel: 1e-13,
-                        both_directions: false,
+                        both_directions: true,
                     });
                 }
             }
@@ -191,7 +191,7 @@ fn relations(tier: Tier, ellipsoids: &[String]) -> Vec<Relation> {
                         inputs: inputs.clone(),
                         tol_abs: tol * 10.,
                         tol_rel: 1e-13,
-                        both_directions: false,
+                        both_directions: true,
                     });
                 }
             }
